@@ -332,7 +332,19 @@ fn conn_level(cfg: &RunCfg) -> Outcome {
     }
 }
 
-const S500: &[u8] = b"HTTP/1.1 500 Internal Server Error\r\ncontent-type: text/plain; charset=UTF-8\r\nconnection: close\r\ncontent-length: 21\r\n\r\nInternal server error";
+/// True if `wire` is (a prefix of) exactly one well-formed 500 response marked `connection: close`.
+/// `complete` demands the whole response.
+fn is_single_500(wire: &[u8], complete: bool) -> bool {
+    if wire.is_empty() {
+        return !complete;
+    }
+    let (rs, end) = parse_transcript(wire);
+    match end {
+        End::Clean => rs.len() == 1 && rs[0].code == 500 && rs[0].header_all("connection") == vec!["close"],
+        End::Truncated(_) if !complete => rs.len() <= 1 && (rs.is_empty() || rs[0].code == 500) && (wire.len() < 12 || wire.starts_with(b"HTTP/1.1 500")),
+        _ => false,
+    }
+}
 
 /// Level 3: the full server; the client's transcript must be a prefix of the correct
 /// response, or (nothing of it sent) exactly one well-formed 500.
@@ -362,7 +374,7 @@ fn server_level(cfg: &RunCfg) -> Outcome {
         Ok(f) => f,
         Err(o) => return o,
     };
-    let full_len = full.as_ref().map(|f| f.len()).unwrap_or(S500.len());
+    let full_len = full.as_ref().map(|f| f.len()).unwrap_or(139);
     let mut eng = match Engine::start(scfg) {
         Ok(e) => e,
         Err(e) => return Outcome { harness_error: Some(e), ..Default::default() },
@@ -423,8 +435,8 @@ fn server_level(cfg: &RunCfg) -> Outcome {
     // everything the server ever put on the wire for this connection
     let wire: Vec<u8> = with(|w| w.net.conns[conn].s2c_log.clone());
     let ok = match &full {
-        Some(f) => is_prefix(&wire, f) || wire == S500,
-        None => is_prefix(&wire, S500),
+        Some(f) => is_prefix(&wire, f) || is_single_500(&wire, true),
+        None => is_single_500(&wire, false),
     };
     if !ok {
         let (rs, end) = parse_transcript(&wire);
@@ -440,7 +452,7 @@ fn server_level(cfg: &RunCfg) -> Outcome {
         );
     }
     // a partially sent response is followed by FIN (unless the peer is gone or the server is blocked on a stalled reader)
-    let complete = full.as_ref().map(|f| &wire == f).unwrap_or(false) || wire == S500;
+    let complete = full.as_ref().map(|f| &wire == f).unwrap_or(false) || is_single_500(&wire, true);
     let (fin, rst, blocked) = with(|w| {
         let c = &w.net.conns[conn];
         (c.s2c.fin, c.rst, !c.server_closed && c.s2c.free() == 0)
@@ -451,7 +463,7 @@ fn server_level(cfg: &RunCfg) -> Outcome {
             return Outcome::fail("C08.shutdown_after_partial", format!("{desc}: a partial response ({} of {} bytes) is on the wire but the write side was never shut down", wire.len(), full_len));
         }
     }
-    if wire == S500 && full.as_deref() != Some(S500) {
+    if is_single_500(&wire, true) && full.as_deref() != Some(&wire[..]) {
         gen::count("probe.single_500_instead");
     }
     Outcome {
